@@ -48,4 +48,5 @@ class C13(Prop):
         return "%s/%s" % (clause, case.meta.get("kind"))
 
 
-PROP = C13()
+import sessmix
+PROP = sessmix.attach(C13(), sessmix.c13_cases, sessmix.c13_oracle, 160, 3000)
